@@ -167,6 +167,8 @@ class BNHooks(Hooks):
 
     def on_write(self, ex, path, how, node, store, ctx, local):
         self.wrote.add(path)
+        if path.startswith("running_"):
+            store[path] = "updated"
 
     def external_super(self, ex, name, args, store, ctx):
         if name == "train":
